@@ -195,6 +195,8 @@ def construct(tr, n):
             return 'sv_from_cstr(%s)' % exprs[0]
         if kinds == ['p', 'z']:
             return '((sv_t){%s, %s})' % tuple(exprs)
+        if kinds == ['sv', 'z']:     # string_view("literal", n)
+            return '((sv_t){(%s).p, %s})' % tuple(exprs)
         if kinds == ['p', 'p']:
             return 'sv_ctor__p_p(%s, %s)' % tuple(exprs)
         return None
